@@ -1,6 +1,7 @@
 package main
 
 import (
+	"bytes"
 	"encoding/json"
 	"fmt"
 	"reflect"
@@ -191,6 +192,18 @@ func canonJSON(x interface{}) string {
 	if err != nil {
 		return "!marshal:" + err.Error()
 	}
+	// a struct held in an interface{} comes back from a file as a map:
+	// normalise the key order (numbers keep their literal form)
+	if bytes.Contains(b, []byte(`"Any":{`)) || bytes.Contains(b, []byte(`"Any":[`)) {
+		dec := json.NewDecoder(bytes.NewReader(b))
+		dec.UseNumber()
+		var v interface{}
+		if dec.Decode(&v) == nil {
+			if c, err := json.Marshal(v); err == nil {
+				return string(c)
+			}
+		}
+	}
 	return string(b)
 }
 
@@ -221,6 +234,15 @@ type Model struct {
 func NewModel(cfg Config) *Model { return &Model{cfg: cfg, objs: map[string]*Rec{}} }
 
 func (m *Model) Len() int { return len(m.objs) }
+
+// Clone returns an independent copy.
+func (m *Model) Clone() *Model {
+	c := &Model{cfg: m.cfg, objs: map[string]*Rec{}, order: append([]string(nil), m.order...), deleted: append([]string(nil), m.deleted...), tags: m.tags}
+	for u, x := range m.objs {
+		c.objs[u] = cloneRec(x)
+	}
+	return c
+}
 
 // live uuids in creation order
 func (m *Model) Live() []string {
